@@ -53,6 +53,8 @@ type Check struct {
 	Finish func(tier string, m *Merged, cov map[string]interface{})
 	// Pre runs once in the supervisor before the enumeration (optional); may report failures.
 	Pre func(tier string, r *Rec)
+	// Sub handles check-specific sub-commands (raw arguments after the id); returns true when handled.
+	Sub func(args []string) bool
 	// Deadline for the whole enumeration (0 = default per tier).
 	QuickDeadline, ThoroughDeadline time.Duration
 }
@@ -246,6 +248,9 @@ func envInt(k string, d int64) int64 {
 
 // Main runs check c with the given command-line arguments and exits.
 func Main(c *Check, args []string) {
+	if c.Sub != nil && c.Sub(args) {
+		os.Exit(0)
+	}
 	o := ParseOpts(args)
 	if o.Worker {
 		workerMain(c, o)
